@@ -95,11 +95,18 @@ int backup_copy_file(const char *filename, const vector<UINT8> &data)
    {
       size_t retval   = fwrite(data.data(), data.size(), 1, thefile);
       int    my_errno = errno;
+      bool   written  = (  retval == 1
+                        || data.empty());
 
-      fclose(thefile);
+      // small files are only flushed here: a failing close means the backup is incomplete
+      if (  fclose(thefile) != 0
+         && written)
+      {
+         my_errno = errno;
+         written  = false;
+      }
 
-      if (  retval == 1
-         || data.empty())
+      if (written)
       {
          return(EX_OK);
       }
